@@ -10,6 +10,7 @@
 (*   AllDistinct / successor: the state of each id is a LegalSucc of the previous one (strictly larger, and a     *)
 (*                value one CAS iteration or the fallback can install)                                            *)
 (*   per caller   the calls of one caller appear in their program order                                           *)
+(* Bulk runs (hundreds of thousands of ids) are summarised per time value ("run" lines, see RunLine).              *)
 (* The trace is linear: one successor per state.                                                                  *)
 EXTENDS IDsBase, Sequences, TLC, Json
 
@@ -41,7 +42,21 @@ IdLine == /\ i <= Len(Trace) /\ Trace[i].ev = "id"
           /\ UNCHANGED mach
           /\ i' = i + 1
 
-Next == GenLine \/ IdLine
+\* summary of all ids of one generator that carry the same time value (bulk runs: too many ids for one line each).
+\* A chain of LegalSucc steps enters a time value at sequence 0 (Compute with a later clock, or the bump) and stays in it
+\* only by Inc, so the ids of one time value are exactly sequence 0..n-1: n ids, smallest 0, largest n-1 - a repeated
+\* id (AllDistinct) or a skipped state makes the count disagree with the range.
+RunLine == /\ i <= Len(Trace) /\ Trace[i].ev = "run"
+           /\ LET r == Trace[i]
+              IN /\ ~r.zero
+                 /\ r.mmin = mach /\ r.mmax = mach
+                 /\ r.smin = 0 /\ r.smax <= SeqMax /\ r.n = r.smax + 1
+                 /\ have => LegalSucc(prev, St(r.t, 0, 0))
+                 /\ prev' = St(r.t, 0, r.smax) /\ have' = TRUE
+           /\ UNCHANGED <<mach, last>>
+           /\ i' = i + 1
+
+Next == GenLine \/ IdLine \/ RunLine
 Spec == Init /\ [][Next]_vars
 
 Mark == TLCSet(1, IF TLCGet(1) < i THEN i ELSE TLCGet(1))
